@@ -235,6 +235,12 @@ def mk_if(cond, a, b):
         return mk_if(cond[1], b, a)
     if cond[0] == "cmp" and cond[1] in NEG_OPS:
         return mk_if(mk_not(cond), b, a)
+    # inside the true branch of `X == <constant>` X is that constant
+    eqs = [c for c in ((cond[2] if cond[0] == "bool" and cond[1] == "and" else (cond,))) if c[0] == "cmp" and c[1] == "==" and c[3][0] == "c" and c[2][0] in ("sym", "attr")]
+    if eqs:
+        a2 = subst(a, {c[2]: c[3] for c in eqs})
+        if a2 != a:
+            return mk_if(cond, a2, b) if a2 != b else a2
     # boolean-valued conditional expression
     if a == C(True) and b == C(False):
         return cond
